@@ -115,6 +115,7 @@ variable (w : World A U) (r : Res) (l : Lbl) (t : Nat) (q : QAct A)
 @[simp] theorem stopReactor_failure : (stopReactor w).sp.failure = w.sp.failure := by unfold stopReactor; split <;> rfl
 @[simp] theorem stopReactor_tcall : (stopReactor w).sp.tcall = w.sp.tcall := by unfold stopReactor; split <;> rfl
 @[simp] theorem stopReactor_junk : (stopReactor w).sp.junk = w.sp.junk := by unfold stopReactor; split <;> rfl
+@[simp] theorem stopReactor_saved : (stopReactor w).sp.saved = w.sp.saved := by unfold stopReactor; split <;> rfl
 
 theorem stopReactor_crashed : (stopReactor w).crashed = (w.crashed || w.sp.spinning) := by
   unfold stopReactor; split <;> simp_all
@@ -167,6 +168,11 @@ theorem stopReactor_spinning : (stopReactor w).sp.spinning = false := by
   · cases r <;> rfl
   · rfl
 
+@[simp] theorem deliver_saved : (deliver r w).sp.saved = w.sp.saved := by
+  unfold deliver; simp only [stopReactor_saved]; split
+  · cases r <;> rfl
+  · rfl
+
 theorem deliver_calls : (deliver r w).calls =
     if w.sp.tcall = .pending then w.calls.filter (fun c => !c.act.isTimeout) else w.calls := by
   unfold deliver; simp only [stopReactor_calls]
@@ -189,6 +195,7 @@ theorem deliver_of_not_pending (h : w.sp.tcall ≠ .pending) : deliver r w = sto
 @[simp] theorem execTimeout_running : (execTimeout w).running = w.running := by simp [execTimeout]
 @[simp] theorem execTimeout_stopPatched : (execTimeout w).stopPatched = w.stopPatched := by simp [execTimeout]
 @[simp] theorem execTimeout_junk : (execTimeout w).sp.junk = w.sp.junk := by simp [execTimeout]
+@[simp] theorem execTimeout_saved : (execTimeout w).sp.saved = w.sp.saved := by simp [execTimeout]
 @[simp] theorem execTimeout_failure : (execTimeout w).sp.failure = some .timeout := by simp [execTimeout]
 @[simp] theorem execTimeout_success : (execTimeout w).sp.success = w.sp.success := by simp [execTimeout]
 @[simp] theorem execTimeout_tcall : (execTimeout w).sp.tcall = .called := by simp [execTimeout]
